@@ -86,11 +86,13 @@ FUZZ = {
     "crashpt": {"nodes": [1, 2, 3], "voters": [1, 2, 3], "nonvoters": [], "eager": E3, "steps": 220, "crash": 0.1, "fail": 0.3, "reconfig": 0, "snapshot": 0.8, "maxCmds": 14, "crashPts": 1.2},
     "xfer": {"nodes": [1, 2, 3], "voters": [1, 2, 3], "nonvoters": [], "eager": E3, "steps": 160, "crash": 0.15, "fail": 0.3, "reconfig": 0, "snapshot": 0, "maxCmds": 10, "transfer": 1.0},
     "xferconf": {"nodes": [1, 2, 3, 4], "voters": [1, 2, 3], "nonvoters": [], "eager": E3, "steps": 200, "crash": 0.1, "fail": 0.3, "reconfig": 0.6, "snapshot": 0.3, "maxCmds": 10, "transfer": 0.8, "fair": True},
+    # short batches (2 entries per request): lagging followers, several requests in flight, abandoned connections
+    "batch": {"nodes": [1, 2, 3], "voters": [1, 2, 3], "nonvoters": [], "eager": {"ldr": True, "poll": True, "fsm": False, "maxAppend": 2}, "steps": 220, "crash": 0.1, "fail": 0.8, "reconfig": 0, "snapshot": 0, "maxCmds": 14},
     "all": {"nodes": [1, 2, 3, 4], "voters": [1, 2, 3], "nonvoters": [], "eager": E3, "steps": 220, "crash": 0.2, "fail": 0.3, "reconfig": 0.5, "snapshot": 0.8, "maxCmds": 12},
 }
 
 
-def plan(preds, mcq, mct, attacks, sim=("core",), level="model_checking", assumptions=(), fuzz=None, runs=(40, 600)):
+def plan(preds, mcq, mct, attacks, sim=("core",), level="model_checking", assumptions=(), fuzz=None, runs=(160, 2000)):
     fuzz = fuzz if fuzz is not None else sim
     sims = {"core": (SIM_CORE, SIM_CORE_T), "conf": (SIM_CONF, SIM_CONF_T), "snap": (SIM_SNAP, SIM_SNAP_T), "xfer": (SIM_XFER, SIM_XFER_T)}
     return {"level": level, "preds": preds, "mc": {"quick": mcq, "thorough": mcq + mct},
@@ -109,27 +111,27 @@ PLANS = {
     "C03": plan(["C03_FsmIsCommittedPrefix", "C03_FsmNotAhead"], [REPL_Q3, REPL_Q2], [REPL_T3, REPL_T2], ["G_UpToDate", "G_FollowerOwnTerm", "G_ConsistencyCheck"]),
     "C04": plan(["C04_LogMatching", "C04_LeaderAppendOnly"], [REPL_Q3, REPL_Q2], [REPL_T3, REPL_T2], ["G_ConsistencyCheck", "G_TruncateOnConflict", "G_StaleTermAppend"]),
     "C06": plan(["C06_MajorityDurable"], [REPL_Q2, CONF_Q12, CONF_Q21], [REPL_T2, CONF_T], ["G_FlushBeforeAck", "G_LeaderFlush", "G_MajorityOfVoters", "FixD2"], sim=("core", "conf")),
-    "C08": plan(["C08_OneVoterDelta", "C08_ConfigOnlyWhenSafe"], [CONF_Q12, CONF_Q21], [CONF_T], ["G_ConfigCommittedFirst", "G_OwnTermBeforeConfig"], sim=("conf",)),
-    "C11": plan(["C11_OnlyVotersCampaign", "C11_OnlyVotersLead", "C11_PromoteAfterRound", "C11_StopOnlyWhenRemoved", "C11_DemotedLeaderStepsDown"],
+    "C08": plan(["C08_OneVoterDelta", "C08_ConfigOnlyWhenSafe", "C19_LatestIsNewest", "C01_ElectionSafety", "C02_CommittedAgree", "C02_CommittedStable"], [CONF_Q12, CONF_Q21], [CONF_T], ["G_ConfigCommittedFirst", "G_OwnTermBeforeConfig"], sim=("conf",)),
+    "C11": plan(["C11_OnlyVotersCampaign", "C11_OnlyVotersLead", "C11_PromoteAfterRound", "C11_StopOnlyWhenRemoved", "C11_DemotedLeaderStepsDown", "C06_MajorityDurable"],
                 [CONF_Q12, CONF_Q21], [CONF_T], ["G_NonVoterNoElection", "G_PromoteAfterRound", "G_StepDownWhenDemoted", "G_MajorityOfVoters"], sim=("conf",)),
     "C09": plan(["C09_SnapshotCommitted", "C09_NoViewInvalidation", "C03_FsmIsCommittedPrefix", "C03_FsmNotAhead"], [SNAP_Q], [SNAP_T], ["FixD5"], sim=("snap",)),
     "C12": plan(["C12_LabelOK"], [SNAP_Q], [SNAP_T], ["FixD4"], sim=("snap", "conf")),
-    "C19": plan(["C19_Ordered", "C19_LatestIsNewest", "C19_Monotone"], [REPL_Q3, REPL_Q2], [REPL_T3, REPL_T2], ["G_ConsistencyCheck", "G_FollowerOwnTerm"], sim=("core", "conf")),
+    "C19": plan(["C19_Ordered", "C19_LatestIsNewest", "C19_Monotone"], [REPL_Q3, REPL_Q2], [REPL_T3, REPL_T2], ["G_ConsistencyCheck", "G_FollowerOwnTerm"], sim=("core", "conf"), fuzz=("core", "conf", "batch")),
     # C10: crash at every hook point inside the handlers (image of the directory at that instant), restart on the image, rejoin
     "C10": plan(["C10_RestartOK", "C01_ElectionSafety", "C02_CommittedAgree", "C02_LeaderCompleteness", "C02_CommittedStable",
                  "C03_FsmIsCommittedPrefix", "C03_FsmNotAhead", "C04_LogMatching", "C05_TermMonotone", "C05_OneVotePerTerm"],
                 [REPL_Q2], [REPL_T2], ["G_FlushBeforeAck", "FixD13", "G_PersistVote"], sim=("core",), fuzz=("crashpt", "snap"),
-                level="fault_enumeration", runs=(64, 800)),
+                level="fault_enumeration", runs=(200, 2400)),
     # C15: no self-inflicted death, every task completes, shutdown completes pending tasks
-    "C15": plan(["C15_NoSelfInflictedDeath", "C15_AllTasksComplete"], [SNAP_Q], [SNAP_T, CONF_T], ["FixD5", "FixD11"], sim=("snap",),
-                fuzz=("all", "snap", "fairconf"), runs=(40, 600)),
+    "C15": plan(["C15_NoSelfInflictedDeath", "C15_AllTasksComplete", "C15_TaskCompletesOnce"], [SNAP_Q], [SNAP_T, CONF_T], ["FixD5", "FixD11", "FixD18"], sim=("snap",),
+                fuzz=("all", "snap", "fairconf"), runs=(128, 1600)),
     # C16: leadership transfer (task, target choice, timeout-now RPC, timers); fair continuation after transfers (xferconf)
     "C16": plan(["C16_SuccessMeansSteppedDown", "C16_TargetEligible", "C16_NoNewEntriesDuringTransfer", "C01_ElectionSafety", "C17_Converges"],
                 [XFER_Q1, XFER_Q2], [XFER_T], ["G_XferCaughtUp", "G_XferBlocksEntries", "G_XferSuccessOnHigherTerm"], sim=("xfer",),
-                fuzz=("xfer", "xferconf"), runs=(48, 800)),
+                fuzz=("xfer", "xferconf"), runs=(128, 1600)),
     # C17: (a) leader stickiness as an action property; (b) convergence under a fair, fault-free continuation of random fault histories
     "C17": plan(["C17_LeaderStickiness", "C17_Converges"], [ELECT_Q], [ELECT_T], ["FixD1", "G_LeaderKnown"], sim=("core",),
-                fuzz=("fair", "fairconf"), runs=(48, 800)),
+                fuzz=("fair", "fairconf"), runs=(128, 1600)),
 }
 
 
